@@ -23,12 +23,21 @@
              (written or gap-filled) put a summary entry on level 15; wr_summary(15) then evaluates
              self->level[16], one past the array (C10_level16_fault_outside_guard: the model's fault; a latent
              defect of wr_fsr.c, not reachable by a replay: >= 1.6 * 10^15 samples).  Inside one window the
-             model's unbounded Z sample ids also coincide with the C's int64 arithmetic; int64 overflow of
-             sample_id + length (undefined behaviour in C) is outside the model.
+             model's sample ids are unbounded Z; the C computes in int64, and int64 overflow (undefined
+             behaviour) is OUTSIDE the model.  It is reachable: sample ids near INT64_MAX overflow
+             `timestamp + entry_count` (wr_fsr.c:513; also lines 519, 530).  Replayed on the ASan/UBSan build:
+               wopen;src 1 e e e e e;sig 3 1 0 8196 1000 0 0 0 0 0 0 e e;fsr 3 9223372036854775800 16 0 0;fsr 3 9223372036854775804 16 0 0;wclose
+               -> FAULT EXIT1, "wr_fsr.c:513:13: runtime error: signed integer overflow" 
        Built into the representation (documented API preconditions): the caller's sample buffer holds exactly
        the samples passed (a list), user data / annotation data hold exactly `size` bytes (a list), strings are
        NUL-terminated or NULL (strv), pointers are valid.  Not modelled: I/O errors, allocation failure.
-       No input allowed by the documented API makes the model fault inside G1/G2, so nothing is refuted here.
+       No input allowed by the documented API makes the model fault inside G1/G2, so no `_refuted` theorem is
+       stated.  But G2 also hides a genuine C10 finding that the model cannot express as a fault (its fuel is
+       proportional to the gap, so the model "terminates"): jls_wr_fsr_data gap-fills sample_id - sample_id_next
+       samples with no upper limit and no error code, so a far-future sample id makes the call run for centuries
+       while the file grows.  Replayed on the C (prog kind):
+         wopen;src 1 e e e e e;sig 3 1 0 259 1000 0 0 0 0 0 0 e e;fsr 3 0 8 0 0;fsr 3 4611686018427387904 8 0 0;wclose
+         -> wopen 0;src 0;sig 0;fsr 0;FAULT TIMEOUT      (a gap of 2*10^9 takes 5.4 s: linear in the gap)
    (b) component models: ring buffer, signal-definition normalisation, tmap, jls_bit_copy, definition decoders,
        index-pyramid seek.
    (c) the reader's raw layer (RepairRaw.v) on ARBITRARY file bytes and states. *)
